@@ -11,7 +11,7 @@ only = sys.argv[1:]
 rows = []
 for sid in sorted(os.listdir(os.path.join(ROOT, "seeded"))):
     d = os.path.join(ROOT, "seeded", sid)
-    if not os.path.isdir(d) or (only and sid not in only):
+    if not os.path.isdir(d) or sid.startswith("_") or (only and sid not in only):
         continue
     tmp = tempfile.mkdtemp(prefix="vmut.")
     try:
@@ -39,6 +39,6 @@ with open(os.path.join(ROOT, "seeded", "MATRIX.md"), "w") as f:
             "| seeded change | breaks | result per check |\n|---|---|---|\n")
     for sid in sorted(os.listdir(os.path.join(ROOT, "seeded"))):
         mp = os.path.join(ROOT, "seeded", sid, "meta.json")
-        if os.path.exists(mp):
+        if os.path.exists(mp) and not sid.startswith("_"):
             res = json.load(open(mp)).get("detected_by", {})
             f.write(f"| {sid} | {sid.split('-')[0]} | " + ", ".join(f"{k}: {v['verdict']}" for k, v in res.items()) + " |\n")
